@@ -143,7 +143,10 @@ def run(chk):
         recs.append(setup)
         for (s, lab, d) in t: recs.append(to_record(lab, states[s], states[d]))
     log("[C13] %d states, %d labelled transitions, %d tours, %d API calls to replay" % (len(states), n_trans, len(tours), len(recs)))
-    for v in (["std"] if quick else ["std", "verify"]):
+    # the same tours once more with every partial_sign issued on a copy of the static context (legal: partial signing needs no generator
+    # tables; nonce generation does): the specification makes no distinction, so the expected states are the same
+    recs_static = [dict(r, **{"in": dict(r["in"], ctxstatic=1)}) if r["e"] == "MnPartialSign" else r for r in recs]
+    for v, recs in ([("std", recs), ("std", recs_static)] if quick else [("std", recs), ("verify", recs), ("std", recs_static)]):
         obs, rc, err = vlib.harness(chk.bins[v], recs, timeout=3000)
         if rc != 0 or len(obs) != len(recs):
             chk.violation("harness crashed during the transition tour (rc=%s): %s" % (rc, err[-300:]), recs[max(0, len(obs) - 5): len(obs) + 1], v)
